@@ -397,6 +397,89 @@ def rule_store(chk, db, cfgname):
                               'workers reuse one triangulator concurrently', cfg=cfgname)
 
 
+def rule_degenerate(chk, db, cfgname):
+    chk.rule('C10.6', 'termination and index validity for every finite input: in the triangulator an unsigned '
+             '`c.size() - k` (k >= 1) and a dereference of `c.begin()` are dominated by a test of c\'s size / emptiness '
+             '(a contour with fewer than three - or zero - vertices must not wrap a count around or be indexed)')
+    n = 0
+    for f in db.functions.values():
+        if not f.get('blocks') or f['file'] not in ('src/polygon.cpp', 'src/polygon_internal.h'):
+            continue
+        g = None
+        seen = set()
+        begins = {}
+        for b in f['blocks']:
+            for e in b['ev']:
+                if e.get('k') == 'decl':
+                    for v in e['vars']:
+                        i = T.strip_copy(v['init']) if v.get('init') is not None else None
+                        if i is not None and i.get('k') == 'call' and T.short(i.get('fn', '')) in ('begin', 'cbegin') and \
+                                i.get('recv') is not None:
+                            begins[v['n']] = T.pstr(i['recv'])
+
+        def guarded(bid, recv):
+            nonlocal g
+            g = g or C.Cfg(f)
+            for d in g.dominators().get(bid, set()):
+                c, _ = C.branch_cond(g.blocks[d])
+                if c is not None and d != bid and (recv + '.size()' in T.pstr(c) or recv + '.empty()' in T.pstr(c)):
+                    return True
+            return False
+        for b in f['blocks']:
+            for e in b['ev']:
+                for x in T.walk(e):
+                    if not isinstance(x, dict):
+                        continue
+                    site = None
+                    if x.get('k') == 'bin' and x.get('op') == '-':
+                        l, r = T.strip_copy(x['l']), T.strip_copy(x['r'])
+                        if l.get('k') == 'call' and T.short(l.get('fn', '')) == 'size' and l.get('recv') is not None and \
+                                r.get('k') == 'int' and r.get('v', 0) >= 1:
+                            site = (T.pstr(l['recv']), 'unsigned %s' % T.pstr(x)[:30])
+                            # guarded by the very conditional expression it sits in
+                    itv = None
+                    if x.get('k') == 'mem':
+                        bs = T.strip(x['base'])
+                        if x.get('arrow') and bs.get('k') == 'var' and bs['n'] in begins:
+                            itv = bs['n']
+                        elif bs.get('k') == 'call' and bs.get('op') in ('->', '*') and bs.get('recv') is not None and \
+                                T.strip(bs['recv']).get('k') == 'var' and T.strip(bs['recv'])['n'] in begins:
+                            itv = T.strip(bs['recv'])['n']
+                    if itv:
+                        v = itv
+                        # only the first element: the iterator has not been advanced/compared yet in this block chain
+                        site = (begins[v], 'dereference of %s.begin()' % begins[v])
+                    if not site:
+                        continue
+                    key = (x.get('ln'), site[1])
+                    if key in seen:
+                        continue
+                    seen.add(key)
+                    ok = guarded(b['id'], site[0])
+                    if not ok and site[1].startswith('unsigned'):
+                        # `c.size() < k ? 0 : c.size() - k`
+                        for y in T.walk(e):
+                            if isinstance(y, dict) and y.get('k') == 'cond' and site[0] + '.size()' in T.pstr(y.get('c') or {}):
+                                ok = True
+                    if not ok and site[1].startswith('dereference'):
+                        # iterator compared with end() on a dominating branch
+                        g = g or C.Cfg(f)
+                        for d in g.dominators().get(b['id'], set()):
+                            c, _ = C.branch_cond(g.blocks[d])
+                            if c is not None and d != b['id'] and '.end()' in T.pstr(c) and itv and itv in T.pstr(c):
+                                ok = True
+                    n += 1
+                    chk.obligation(ok, {'function': f['name'][:60], 'line': x.get('ln'), 'site': site[1],
+                                        'dominated by a size test of': site[0] if ok else 'NOTHING'})
+                    if not ok:
+                        chk.violation('C10.6', f, '%s without a size test' % site[1],
+                                      '%s at line %s is reached for a contour of any size: a contour with fewer than '
+                                      'three (or zero) vertices wraps the unsigned count around or indexes past its end '
+                                      '- Triangulate throws or crashes instead of terminating' % (site[1], x.get('ln')),
+                                      line=x.get('ln'), cfg=cfgname)
+    chk.count('c10.6.size_sensitive_sites', n)
+
+
 def main(chk, tier):
     import db as D
     configs = ['seq', 'par'] if tier == 'quick' else ['seq', 'par', 'seq-debug', 'par-debug']
@@ -408,11 +491,13 @@ def main(chk, tier):
         rule_reset(chk, db, cfgname)
         rule_statics(chk, db, cfgname)
         rule_store(chk, db, cfgname)
+        rule_degenerate(chk, db, cfgname)
         if cfgname.startswith('par'):
             rule_isolate(chk, db, cfgname)
     n = len(configs)
     chk.floor('c10.1.members', 12 * n)
     chk.floor('c10.2.triangulate_bodies', n)
+    chk.floor('c10.6.size_sensitive_sites', 3 * n)
     chk.floor('c10.5.triangulator_uses', n)
     chk.floor('c10.4.tbb_sites', n // 2)
     return chk.finish(
